@@ -321,8 +321,11 @@ pub struct XlsbBook {
     pub strings: Vec<String>,
     /// numFmtId of each cell XF (index = iStyleRef); empty = one General XF
     pub xfs: Vec<u16>,
-    /// custom number formats (id, code) written in BrtBeginFmts
+    /// custom number formats (id, code) written in BrtBeginFmts, in this order
     pub custom_fmts: Vec<(u16, String)>,
+    /// numFmtId of each *style* XF (BrtBeginCellStyleXFs, written before the cell XFs);
+    /// empty = one General style XF
+    pub style_xfs: Vec<u16>,
     pub is_1904: bool,
     /// records written after BrtEndBundleShs and before BrtEndBook (BrtExternSheet, BrtName ..)
     pub extra_workbook: Vec<Rec>,
@@ -384,8 +387,14 @@ impl XlsbBook {
         r.push(Rec::new(0x0265, cnt(1))); // borders
         r.push(Rec::new(0x002E, unhex("000000010000000000000000000100000000000000000001000000000000000000010000000000000000000100000000000000")));
         r.push(Rec::new(0x0266, vec![]));
-        r.push(Rec::new(0x0272, cnt(1))); // cellStyleXfs
-        r.push(Rec::new(0x002F, unhex("ffff0000000000000000000010100000")));
+        let sxfs: Vec<u16> = if self.style_xfs.is_empty() { vec![0] } else { self.style_xfs.clone() };
+        r.push(Rec::new(0x0272, cnt(sxfs.len() as u32))); // cellStyleXfs
+        for f in &sxfs {
+            let mut p = 0xFFFFu16.to_le_bytes().to_vec();
+            p.extend_from_slice(&f.to_le_bytes());
+            p.extend_from_slice(&unhex("000000000000000010100000"));
+            r.push(Rec::new(0x002F, p));
+        }
         r.push(Rec::new(0x0273, vec![]));
         let xfs: Vec<u16> = if self.xfs.is_empty() { vec![0] } else { self.xfs.clone() };
         r.push(Rec::new(0x0269, cnt(xfs.len() as u32))); // BrtBeginCellXFs
@@ -478,7 +487,7 @@ pub fn cellval_from_token(t: &Value) -> CellVal {
 }
 
 /// record tokens of the cell table -> records, plus the BrtWsDim bounding box of the cell records
-///   {"t":"row","r":n}  {"t":"cell","c":n,"v":value}  {"t":"ign","id":n,"len":n[,"lb":bytes]}
+///   {"t":"row","r":n}  {"t":"cell","c":n,"v":value[,"s":iStyleRef]}  {"t":"ign","id":n,"len":n[,"lb":bytes]}
 pub fn body_from_tokens(toks: &[Value]) -> (Vec<Rec>, (u32, u32, u32, u32)) {
     let mut recs = Vec::with_capacity(toks.len());
     let (mut r0, mut r1, mut c0, mut c1) = (u32::MAX, 0u32, u32::MAX, 0u32);
@@ -491,7 +500,13 @@ pub fn body_from_tokens(toks: &[Value]) -> (Vec<Rec>, (u32, u32, u32, u32)) {
             }
             "cell" => {
                 let c = t["c"].as_u64().unwrap() as u32;
-                recs.push(cell_record(c, 0, &cellval_from_token(&t["v"]), &PTG_INT_1));
+                let style = t["s"].as_u64().unwrap_or(0) as u32; // iStyleRef
+                // "fm": RPN token list of the cell's formula (formula records only)
+                let rgce = match t["fm"].as_array() {
+                    Some(f) => rgce_from_tokens(f),
+                    None => PTG_INT_1.to_vec(),
+                };
+                recs.push(cell_record(c, style, &cellval_from_token(&t["v"]), &rgce));
                 r0 = r0.min(row);
                 r1 = r1.max(row);
                 c0 = c0.min(c);
@@ -511,4 +526,138 @@ pub fn body_from_tokens(toks: &[Value]) -> (Vec<Rec>, (u32, u32, u32, u32)) {
     } else {
         (recs, (r0, r1, c0, c1))
     }
+}
+
+// ------------------------------------------------------------------ formulas (BIFF12 rgce)
+//
+// RPN token list (tla/fmla/Ptg.tla `Rpn`) -> rgce bytes in the BIFF12 layout (MS-XLSB 2.5.97):
+// rows are 4 bytes, columns 2 bytes whose low 14 bits are the column, bit 14 = fColRel,
+// bit 15 = fRwRel.  Tokens (JSON):
+//   {"p":"ref","r":row,"c":col,"rr":bool,"cr":bool[,"cls":0|1|2]}
+//   {"p":"area","r1","c1","rr1","cr1","r2","c2","rr2","cr2"}
+//   {"p":"ref3d","x":ixti, ..ref}   {"p":"area3d","x":ixti, ..area}
+//   {"p":"name","i":index(1-based)}
+//   {"p":"int","v":n} {"p":"num","s":"1.5"} {"p":"str","s":"ab"} {"p":"bool","b":bool}
+//   {"p":"err","e":"Div0"} {"p":"miss"}
+//   {"p":"bin","op":"+"} {"p":"un","op":"-"} {"p":"pct"} {"p":"paren"}
+//   {"p":"func","f":iftab} {"p":"funcv","f":iftab,"n":argc} {"p":"attrsum"} {"p":"attrspace"}
+
+fn col_field(col: u64, col_rel: bool, row_rel: bool) -> [u8; 2] {
+    assert!(col < 0x4000);
+    ((col as u16) | ((col_rel as u16) << 14) | ((row_rel as u16) << 15)).to_le_bytes()
+}
+
+pub fn binop_ptg(op: &str) -> u8 {
+    match op {
+        "+" => 0x03, "-" => 0x04, "*" => 0x05, "/" => 0x06, "^" => 0x07, "&" => 0x08, "<" => 0x09,
+        "<=" => 0x0A, "=" => 0x0B, ">" => 0x0C, ">=" => 0x0D, "<>" => 0x0E, " " => 0x0F, "," => 0x10,
+        ":" => 0x11,
+        other => panic!("harness: unknown binary operator {:?}", other),
+    }
+}
+
+pub fn rgce_from_tokens(toks: &[Value]) -> Vec<u8> {
+    let mut o = Vec::new();
+    let u = |t: &Value, k: &str| t[k].as_u64().unwrap_or_else(|| panic!("harness: token field {} missing in {}", k, t));
+    let b = |t: &Value, k: &str| t[k].as_bool().unwrap_or(false);
+    for t in toks {
+        let cls = (t["cls"].as_u64().unwrap_or(0) as u8) * 0x20;
+        match t["p"].as_str().unwrap() {
+            "ref" => {
+                o.push(0x24 + cls);
+                o.extend_from_slice(&(u(t, "r") as u32).to_le_bytes());
+                o.extend_from_slice(&col_field(u(t, "c"), b(t, "cr"), b(t, "rr")));
+            }
+            "area" => {
+                o.push(0x25 + cls);
+                o.extend_from_slice(&(u(t, "r1") as u32).to_le_bytes());
+                o.extend_from_slice(&(u(t, "r2") as u32).to_le_bytes());
+                o.extend_from_slice(&col_field(u(t, "c1"), b(t, "cr1"), b(t, "rr1")));
+                o.extend_from_slice(&col_field(u(t, "c2"), b(t, "cr2"), b(t, "rr2")));
+            }
+            "ref3d" => {
+                o.push(0x3A + cls);
+                o.extend_from_slice(&(u(t, "x") as u16).to_le_bytes());
+                o.extend_from_slice(&(u(t, "r") as u32).to_le_bytes());
+                o.extend_from_slice(&col_field(u(t, "c"), b(t, "cr"), b(t, "rr")));
+            }
+            "area3d" => {
+                o.push(0x3B + cls);
+                o.extend_from_slice(&(u(t, "x") as u16).to_le_bytes());
+                o.extend_from_slice(&(u(t, "r1") as u32).to_le_bytes());
+                o.extend_from_slice(&(u(t, "r2") as u32).to_le_bytes());
+                o.extend_from_slice(&col_field(u(t, "c1"), b(t, "cr1"), b(t, "rr1")));
+                o.extend_from_slice(&col_field(u(t, "c2"), b(t, "cr2"), b(t, "rr2")));
+            }
+            "name" => {
+                o.push(0x23 + cls);
+                o.extend_from_slice(&(u(t, "i") as u32).to_le_bytes());
+            }
+            "int" => {
+                o.push(0x1E);
+                o.extend_from_slice(&(u(t, "v") as u16).to_le_bytes());
+            }
+            "num" => {
+                o.push(0x1F);
+                o.extend_from_slice(&t["s"].as_str().unwrap().parse::<f64>().unwrap().to_le_bytes());
+            }
+            "str" => {
+                let w: Vec<u16> = t["s"].as_str().unwrap().encode_utf16().collect();
+                o.push(0x17);
+                o.extend_from_slice(&(w.len() as u16).to_le_bytes());
+                for x in w {
+                    o.extend_from_slice(&x.to_le_bytes());
+                }
+            }
+            "bool" => {
+                o.push(0x1D);
+                o.push(b(t, "b") as u8);
+            }
+            "err" => {
+                o.push(0x1C);
+                o.push(berr_code(t["e"].as_str().unwrap()));
+            }
+            "miss" => o.push(0x16),
+            "bin" => o.push(binop_ptg(t["op"].as_str().unwrap())),
+            "un" => o.push(if t["op"].as_str() == Some("-") { 0x13 } else { 0x12 }),
+            "pct" => o.push(0x14),
+            "paren" => o.push(0x15),
+            "func" => {
+                o.push(0x21 + cls);
+                o.extend_from_slice(&(u(t, "f") as u16).to_le_bytes());
+            }
+            "funcv" => {
+                o.push(0x22 + cls);
+                o.push(u(t, "n") as u8);
+                o.extend_from_slice(&(u(t, "f") as u16).to_le_bytes());
+            }
+            "attrsum" => o.extend_from_slice(&[0x19, 0x10, 0x00, 0x00]),
+            "attrspace" => o.extend_from_slice(&[0x19, 0x40, 0x00, 0x01]),
+            other => panic!("harness: unknown formula token {}", other),
+        }
+    }
+    o
+}
+
+/// BrtBeginExternals, BrtSupSelf, BrtExternSheet (one Xti per entry: first = last = sheet index,
+/// -2 = the workbook), BrtEndExternals — for `XlsbBook::extra_workbook`
+pub fn extern_sheet_records(itabs: &[i32]) -> Vec<Rec> {
+    let mut p = (itabs.len() as u32).to_le_bytes().to_vec();
+    for t in itabs {
+        p.extend_from_slice(&0u32.to_le_bytes()); // externalLink: the SupSelf entry
+        p.extend_from_slice(&t.to_le_bytes());
+        p.extend_from_slice(&t.to_le_bytes());
+    }
+    vec![Rec::new(0x0161, vec![]), Rec::new(0x0165, vec![]), Rec::new(0x016A, p), Rec::new(0x0162, vec![])]
+}
+
+/// BrtName: workbook-scope defined name with its formula
+pub fn name_record(name: &str, rgce: &[u8]) -> Rec {
+    let mut p = 0u32.to_le_bytes().to_vec(); // flags
+    p.push(0); // chKey
+    p.extend_from_slice(&0xFFFF_FFFFu32.to_le_bytes()); // itab: workbook scope
+    p.extend_from_slice(&wide_str(name));
+    p.extend_from_slice(&parsed_formula(rgce));
+    p.extend_from_slice(&0xFFFF_FFFFu32.to_le_bytes()); // comment: NULL string
+    Rec::new(0x0027, p)
 }
